@@ -68,8 +68,11 @@ ToJSON    == rep = "ref"  /\ rep' = "json" /\ UNCHANGED val
 FromJSON  == rep = "json" /\ rep' = "ref"  /\ UNCHANGED val
 ToGob     == rep = "ref"  /\ rep' = "gob"  /\ UNCHANGED val
 FromGob   == rep = "gob"  /\ rep' = "ref"  /\ UNCHANGED val
+\* looking at a reference (IsRoot, IsCanonical, IsValidURI, RemoteURI, GetURL, GetPointer, Inherits) or handing a
+\* copy of it to a resolution / expansion is a stuttering step: the worker inserts it before every conversion
+Look      == rep = "ref" /\ UNCHANGED <<val, rep>>
 Next == steps < 2 * MaxProg + 1 /\ steps' = steps + 1
-        /\ (Parse \/ String \/ ToJSON \/ FromJSON \/ ToGob \/ FromGob)
+        /\ (Parse \/ String \/ ToJSON \/ FromJSON \/ ToGob \/ FromGob \/ Look)
 Spec == Init /\ [][Next]_<<rep, val, steps>>
 
 \* canonicalisation is idempotent; past the first Parse the value never changes and is canonical
